@@ -229,6 +229,9 @@ class _IMapIter:
                 raise v
             u = self._next_unit()
             if u is None:
+                if not c.units and c.exhausted and not getattr(c, "_empty_checked", False):
+                    c._empty_checked = True
+                    self._empty_imap_hazard()
                 raise StopIteration
             res = c.done[u]
             if isinstance(res, _Failure):
@@ -239,9 +242,29 @@ class _IMapIter:
 
     next = __next__
 
+    def _empty_imap_hazard(self):
+        """CPython: imap/imap_unordered over ZERO tasks, on a pool that nothing but the returned iterator
+        keeps alive, never returns - the task-handler thread drops the last reference to the pool while
+        holding the iterator's condition, the pool's finalizer runs right there and the consumer blocks
+        for ever (reproduced with python 3.12: `def f(): p = Pool(); return p.imap(g, [])`, `list(f())`).
+        The pool counts as orphaned when its reference count is what the harness alone accounts for."""
+        pool = self.call.pool
+        ctx = pool.ctx
+        # strong references the harness itself holds: the registry, every call of the pool, the locals of
+        # __next__ and of this function, the argument of getrefcount - anything beyond that is an owner in
+        # the tool (a local variable, an attribute, a `with` block), and an owned pool is not finalised
+        harness_refs = 1 + len(pool.calls) + 2 + 1
+        holders = frames = sys.getrefcount(pool) > harness_refs
+        ctx.probe("empty_imap")
+        if not holders and not frames:
+            ctx.probe("empty_imap_orphaned_pool")
+            raise core.SimDeadlock("imap over an empty task list on a pool that only the returned iterator keeps "
+                                   "alive: with multiprocessing.Pool the consumer blocks for ever")
+
     def _next_unit(self):
         c = self.call
         if self.ordered:
+
             u = c.next_deliver
             while u not in c.done:
                 if u >= len(c.units):
@@ -433,9 +456,9 @@ class SimPool:
     def _imap(self, func, iterable, chunksize, ordered):
         self._check()
         ctx = self.ctx
-        if chunksize != 1:
-            raise HarnessError("imap chunksize != 1 not modelled")
-        c = self._new_call("imap" if ordered else "imap_unordered", func, iterable, 1)
+        # chunksize > 1: a unit is a chunk (one task applying func to each of its items); its items are
+        # delivered one by one, and a failing item fails the whole chunk at the position of its first item
+        c = self._new_call("imap" if ordered else "imap_unordered", func, iterable, max(1, int(chunksize)))
         c.it = iter(iterable)
         ctx.ev(c.kind, c.tag, c.site)
         st = c.style
